@@ -389,7 +389,7 @@ where
 
     fn with_blob_item<T, F>(&self, key: &K, f: F) -> Result<Option<T>, LibError>
     where
-        F: FnOnce(&IndexStateItem) -> Result<T, CasManagerError>,
+        F: Fn(&IndexStateItem) -> Result<T, CasManagerError>,
     {
         let Some(item) = self.index.read_state().get_item(key) else {
             return Ok(None);
@@ -397,21 +397,36 @@ where
 
         #[cfg(feature = "verif")]
         crate::verif::point("read.before_blob_open", crate::verif::WANT_NONE);
+        // Fast path: the index lock is not held while the blob is opened and read.
+        match f(&item) {
+            Ok(result) => return Ok(Some(result)),
+            Err(cas_error) if !Self::is_not_found(&cas_error) => return Err(LibError::Cas(cas_error)),
+            Err(_) => {}
+        }
+
+        // The blob was not found. Either it is really missing, or a concurrent overwrite/removal
+        // of this key reclaimed it between the index lookup and the open. Repeat lookup and read
+        // while holding the index read lock: a blob is only deleted after the index update that
+        // drops its last reference, and that update needs the write lock, so the blob of a key
+        // that is visible now cannot disappear until the lock is released.
+        let state = self.index.read_state();
+        let Some(item) = state.get_item(key) else {
+            return Ok(None);
+        };
         match f(&item) {
             Ok(result) => Ok(Some(result)),
-            Err(cas_error) => {
-                if let Some(io_err) =
-                    cas_error.source().and_then(|s| s.downcast_ref::<std::io::Error>())
-                    && io_err.kind() == std::io::ErrorKind::NotFound
-                {
-                    return Err(LibError::BlobDataMissing {
-                        key: format!("{key:?}"),
-                        hash: item.blob_hash,
-                    });
-                }
-                Err(LibError::Cas(cas_error))
+            Err(cas_error) if Self::is_not_found(&cas_error) => {
+                Err(LibError::BlobDataMissing { key: format!("{key:?}"), hash: item.blob_hash })
             }
+            Err(cas_error) => Err(LibError::Cas(cas_error)),
         }
+    }
+
+    fn is_not_found(cas_error: &CasManagerError) -> bool {
+        cas_error
+            .source()
+            .and_then(|s| s.downcast_ref::<std::io::Error>())
+            .is_some_and(|io_err| io_err.kind() == std::io::ErrorKind::NotFound)
     }
 }
 
